@@ -1,7 +1,7 @@
 SPECIFICATION Spec
 CONSTANTS
-  Geoms <- GeomsQuick
-  Amps <- Amps4
+  Geoms <- GeomsTiny
+  Amps <- Amps2
   AmpsL <- Amps2
   Pin = 2
   Mutant = "none"
